@@ -28,6 +28,12 @@ def hexDigit (n : Nat) : Char := if n < 10 then Char.ofNat (48 + n) else Char.of
 def toHex16 (n : Nat) : String :=
   String.ofList ((List.range 16).reverse.map (fun i => hexDigit ((n / 16^i) % 16)))
 
+/-- float bits for output: all NaNs are one value -/
+def floatHex (b : Nat) : String :=
+  match F64.decode b with
+  | .nan => "7ff8000000000001"
+  | _ => toHex16 b
+
 def parseIntStr (s : String) : R Int :=
   match s.toInt? with
   | some i => pure i
@@ -191,7 +197,7 @@ partial def dataJson : Data → Json
   | .bool b => .mkObj [("b", .bool b)]
   | .int i => .mkObj [("i", .str (toString i))]
   | .uint n => .mkObj [("u", .str (toString n))]
-  | .float b => .mkObj [("f", .str (toHex16 b))]
+  | .float b => .mkObj [("f", .str (floatHex b))]
   | .str s => .mkObj [("s", .str s)]
   | .arr l => .mkObj [("a", .arr (l.map dataJson).toArray)]
   | .map m => .mkObj [("m", .mkObj (m.map (fun (k, v) => (k, dataJson v))))]
